@@ -61,6 +61,10 @@ class SymUnit:
         c.inputs[name] = self.idx
         c.inputs[name + "#fac"] = _fac_fn(self.base)(self.idx)
         c.assume(_fac_fn(self.base)(self.idx) > 0)
+        # a symbolic unit is one of the kind's real units: its factor lies between the smallest and the largest
+        vals = list(spec.SI_TABLE[self.base].values())
+        c.assume(z3.And(_fac_fn(self.base)(self.idx) >= sym.frac_term(min(vals)),
+                        _fac_fn(self.base)(self.idx) <= sym.frac_term(max(vals))))
 
     def factor(self):
         return _fac_fn(self.base)(self.idx)
